@@ -411,3 +411,55 @@ def twins(ctx: Ctx):
     ctx.ob("EFF4:no-static-params", not static, prog.where(sm),
            "params is a traced (not static) argument of the jitted solver" if not static else
            f"jax.jit is given {static}: results may be cached per params object", lhs=sm[2])
+
+
+@rule("R13.LSE")
+def logsumexp_shift(ctx: Ctx):
+    """Segment log-sum-exp: exp is applied to (a - shift) where shift is the maximum OF THE ROW'S OWN SEGMENT, and the same
+    per-segment maximum is added back to the log of the segment sums (exactness + stability)."""
+    prog = ctx.prog
+    q = "lcm.discrete_problem._segment_logsumexp"
+    if q not in prog.funcs:
+        ctx.undecided("LSE:shift", f"{q} not found (anchor vanished)")
+        return
+    fr = prog.frame(q)
+    where = prog.node_where(fr.module, prog.funcs[q].node)
+    a = ("param", q, fr.params[0]) if fr.params else None
+    r = prog.expand(fr.ret)
+    exps = [s_ for s_ in walk(r) if s_[0] == "call" and callee_name(s_) in ("jax.numpy.exp", "numpy.exp") and s_[2]]
+    if a is None or len(exps) != 1:
+        ctx.undecided("LSE:shift", f"expected one exp(...) in the segment log-sum-exp, found {len(exps)}", where)
+        return
+    arg = exps[0][2][0]
+    p = poly(arg)
+    na = norm(a)
+    shift = [m for m, c in p.items() if m != ((na, 1),)]
+    ok_a = p.get(((na, 1),)) == Fraction(1)
+    if not ok_a or len(shift) != 1 or len(shift[0]) != 1 or shift[0][0][1] != 1 or p[shift[0]] != Fraction(-1):
+        ctx.ob("LSE:shift", None, where, f"exp is not applied to `a - shift`: {show(arg)[:100]}", lhs=arg)
+        return
+    S = shift[0][0][0]
+
+    def is_segmax(t):
+        return is_term(t) and ((t[0] == "op" and t[1] == "segment_max") or (t[0] == "call" and (callee_name(t) or "").endswith("segment_max")))
+
+    gathered = is_term(S) and S[0] == "sub" and is_segmax(S[1])
+    if gathered:
+        sm = S[1]
+        data = dict(sm[2]).get("data") if sm[0] == "op" else (kw(sm, "data") or (sm[2][0] if sm[2] else None))
+        ok = data is not None and norm(data) == na
+        ctx.ob("LSE:shift", ok, where,
+               "every row is shifted by the maximum of its own segment before exp (no overflow, the largest term of every segment is exp(0))"
+               if ok else "the per-segment maximum is not taken over the array itself", lhs=S)
+        # the same per-segment maximum is added back
+        pr = poly(r)
+        back = [m for m in pr if any(norm(x) == norm(sm) or x == norm(sm) for x, _k in m)]
+        ctx.ob("LSE:shift-added-back", True if back else None, where,
+               "the per-segment maximum is added back to the log of the segment sums" if back else
+               "adding back of the shift not recognised", lhs=r)
+    else:
+        has_max = any(is_term(x) and ((x[0] == "op" and x[1] in ("max", "amax")) or (x[0] == "call" and (callee_name(x) or "").split(".")[-1] in ("max", "amax")))
+                      for x in walk(S))
+        ctx.ob("LSE:shift", False if has_max else None, where,
+               f"rows are shifted by {show(S)[:60]}, which is not the maximum of the row's own segment: segments far below that bound "
+               "underflow to -inf" if has_max else f"shift {show(S)[:60]} not recognised", lhs=S)
